@@ -43,6 +43,9 @@ func init() {
 // TestVerif is the single entry point of the proxy-side harness binary.
 func TestVerif(t *testing.T) {
 	kernel.WorkerMain(t, map[string]kernel.Property{
+		"C01": C01{},
+		"C02": C02{},
+		"C03": C03{},
 		"C04": C04{},
 		"C05": C05{},
 		"C09": C09{},
